@@ -17,6 +17,8 @@
 //@inject src/server/mod.rs :: ^use crate::half_connection;$ :: #[cfg(not(kani))]\nuse crate::half_connection;\n#[cfg(kani)]\nuse crate::verif_env::opaque as half_connection;
 //@inject src/server/remote_client.rs :: ^use crate::half_connection::HalfConnection;$ :: #[cfg(not(kani))]\nuse crate::half_connection::HalfConnection;\n#[cfg(kani)]\nuse crate::verif_env::opaque::HalfConnection;
 //@inject src/server/mod.rs :: let local_nonce = rand::random::<u32>\(\); :: #[cfg(not(kani))]\n        let local_nonce = rand::random::<u32>();\n        #[cfg(kani)]\n        let local_nonce = crate::verif_env::random_u32();
+//@inject src/client/mod.rs :: let now = time::Instant::now\(\);\n        \(now - self.time_base\) :: #[cfg(not(kani))]\n        let now = time::Instant::now();\n        #[cfg(kani)]\n        let now = crate::verif_env::instant_now();\n        (now - self.time_base)
+//@inject src/server/mod.rs :: let now = time::Instant::now\(\);\n        \(now - self.time_base\) :: #[cfg(not(kani))]\n        let now = time::Instant::now();\n        #[cfg(kani)]\n        let now = crate::verif_env::instant_now();\n        (now - self.time_base)
 
 #![allow(dead_code)]
 
@@ -27,6 +29,10 @@ pub fn fake_instant() -> std::time::Instant {
     struct Ts { s: i64, n: u32 }
     unsafe { std::mem::transmute::<Ts, std::time::Instant>(Ts { s: 0, n: 0 }) }
 }
+
+// Ghost clock for the obligations that run the real step(): time_base = fake_instant(), now = base + NOW_MS.
+pub static mut NOW_MS: u64 = 0;
+pub fn instant_now() -> std::time::Instant { fake_instant() + std::time::Duration::from_millis(unsafe { NOW_MS }) }
 
 pub static mut RANDOM_LAST: u32 = 0;
 pub static mut RANDOM_CALLS: u32 = 0;
@@ -53,7 +59,9 @@ pub mod net {
     // array-typed ghost state CBMC 6.11 reported spurious deallocation failures in unrelated drop glue.
     #[derive(Clone, Copy)]
     pub struct Slot { pub port: u16, pub len: usize, pub lo: u64, pub hi: u16 }
-    pub struct SockLog { pub s0: Slot, pub s1: Slot, pub s2: Slot, pub s3: Slot, pub n: usize, pub bytes: usize }
+    pub struct SockLog { pub s0: Slot, pub s1: Slot, pub s2: Slot, pub s3: Slot, pub n: usize, pub bytes: usize,
+                         // one datagram waiting in the receive buffer (obligations that run the real step())
+                         pub rx_len: usize, pub rx: [u8; 16], pub rx_port: u16 }
 
     pub struct UdpSocket { pub log: std::cell::RefCell<SockLog> }
 
@@ -61,7 +69,7 @@ pub mod net {
 
     impl UdpSocket {
         pub fn model() -> Self {
-            UdpSocket { log: std::cell::RefCell::new(SockLog { s0: EMPTY, s1: EMPTY, s2: EMPTY, s3: EMPTY, n: 0, bytes: 0 }) }
+            UdpSocket { log: std::cell::RefCell::new(SockLog { s0: EMPTY, s1: EMPTY, s2: EMPTY, s3: EMPTY, n: 0, bytes: 0, rx_len: 0, rx: [0; 16], rx_port: 0 }) }
         }
         pub fn sent_n(&self) -> usize { self.log.borrow().n }
         pub fn sent_bytes(&self) -> usize { self.log.borrow().bytes }
@@ -98,8 +106,27 @@ pub mod net {
             self.record(port, data);
             Ok(data.len())
         }
-        pub fn recv(&self, _buf: &mut [u8]) -> Result<usize, ()> { Err(()) }
-        pub fn recv_from(&self, _buf: &mut [u8]) -> Result<(usize, SocketAddr), ()> { Err(()) }
+        pub fn queue_rx(&self, data: &[u8], port: u16) {
+            let mut l = self.log.borrow_mut();
+            // unrolled copy (harness unwind bounds stay small)
+            macro_rules! cp { ($($k:expr),*) => { $( if data.len() > $k { l.rx[$k] = data[$k]; } )* } }
+            cp!(0, 1, 2, 3, 4, 5, 6, 7, 8, 9, 10, 11, 12, 13, 14, 15);
+            l.rx_len = data.len();
+            l.rx_port = port;
+        }
+        fn take_rx(&self, buf: &mut [u8]) -> Result<(usize, u16), ()> {
+            let mut l = self.log.borrow_mut();
+            if l.rx_len == 0 { return Err(()); }
+            let n = l.rx_len;
+            macro_rules! cp { ($($k:expr),*) => { $( if n > $k { buf[$k] = l.rx[$k]; } )* } }
+            cp!(0, 1, 2, 3, 4, 5, 6, 7, 8, 9, 10, 11, 12, 13, 14, 15);
+            l.rx_len = 0;
+            Ok((n, l.rx_port))
+        }
+        pub fn recv(&self, buf: &mut [u8]) -> Result<usize, ()> { self.take_rx(buf).map(|(n, _)| n) }
+        pub fn recv_from(&self, buf: &mut [u8]) -> Result<(usize, SocketAddr), ()> {
+            self.take_rx(buf).map(|(n, p)| (n, SocketAddr::new(IpAddr::V4(Ipv4Addr::LOCALHOST), p)))
+        }
     }
 }
 
